@@ -10,6 +10,7 @@ import (
 	"path/filepath"
 	"strings"
 	"sync"
+	"sync/atomic"
 	"testing"
 	"time"
 
@@ -523,7 +524,12 @@ func runCell(c Cell) (outcome, error) {
 	}
 	if br := srv.SM.GetTunnelBridgeByConnectionID("6.6.6.6:6006"); br != nil {
 		out.attached = true
+		ownTunnel = ownTunnel || (own != nil && br.GetMappingID() == own.ID)
 	}
+	if out.attached && own != nil && srv.SM.GetTunnelBridgeByMappingID(own.ID, 0) != nil && srv.SM.GetTunnelBridgeByMappingID(mp.ID, 0) == nil {
+		ownTunnel = true // the only bridge on this node belongs to the requester's own mapping
+	}
+	lastOwnTunnel.Store(ownTunnel)
 	// does tunnel traffic reach the requester? the legitimate source writes a probe
 	if srcConn != nil {
 		probe := []byte("PROBE-SECRET-FROM-SOURCE-" + tid)
@@ -575,8 +581,9 @@ func runCell(c Cell) (outcome, error) {
 		// opening a fresh tunnel on one's own valid mapping is that mapping's business, not this one's
 		out.dontCare = true
 	case c.Cred == "other-mapping" && (c.TState == "remote" || c.TState == "local-route") && ownTunnel && !out.remote && out.leaked == "":
-		// the routing record of the victim's tunnel was not in force when the request arrived (its lifetime is wall-clock
-		// time; a stalled machine can outlast it): the server then treated the request as what it also is, a fresh
+		// the routing record of the victim's tunnel was not seen when the request arrived (its lifetime is wall-clock time,
+		// and a routing lookup that fails on an overloaded store is treated as "no such tunnel"): the server then treated
+		// the request as what it also is, a fresh
 		// tunnel on the requester's own mapping - as in the tunnel-state "none" case, that is not this mapping's business
 		out.dontCare = true
 		vkit.Class("routing-record-not-in-force: requester opened a tunnel of its own mapping")
@@ -620,6 +627,33 @@ func branch(t string) string {
 		return "local-route-without-bridge"
 	}
 	return "new-bridge"
+}
+
+// lastOwnTunnel: whether the last cell's requester ended up on a bridge of its own mapping (self-check below)
+var lastOwnTunnel atomic.Bool
+
+// TestOwnTunnelRecognised: the harness's own recognition of "the requester opened a fresh tunnel of its OWN mapping"
+// (used to classify the cells in which the victim tunnel's routing record was not seen) on cells where that is
+// what happens by construction: credential other-mapping with no tunnel under the id.
+func TestOwnTunnelRecognised(t *testing.T) {
+	if vkit.Shard() != 0 {
+		t.Skip("single shard")
+	}
+	for _, id := range []string{"L", "T", "S"} {
+		c := Cell{Identity: id, Cred: "other-mapping", MState: "active", TState: "none", ConnType: "tunnel", Backend: "memory"}
+		out, err := runCell(c)
+		if err != nil {
+			vkit.Violation(t, "C04/harness/setup-failed", err.Error(), c)
+			return
+		}
+		if out.attached && !lastOwnTunnel.Load() {
+			vkit.Violation(t, "C04/harness/own-tunnel-not-recognised", fmt.Sprintf("%+v: the requester is attached to a bridge, which can only be its own mapping's, and the harness does not recognise it", c), c)
+			return
+		}
+		if !out.attached {
+			vkit.Class("own-tunnel-self-check: requester not attached (" + id + ")")
+		}
+	}
 }
 
 var (
